@@ -427,3 +427,53 @@ Definition check_ccase (c : ccase) : bool :=
 (* both observations of one generated segment: the executed behaviour (Model/C01.v) and the emitted table *)
 Inductive fcase := FCase (c : C01.case) (t : ccase).
 Definition check_fcase (f : fcase) : bool := match f with FCase c t => C01.check_case c && check_ccase t end.
+
+(* ---- well-formed compiler inputs (the hypothesis of the compiler-correctness theorem) -------------------- *)
+Definition ref_ok (nodes : list node) (i : nat) (jp : nat * nat) : bool :=
+  Nat.ltb (fst jp) i
+  && match nth_error nodes (fst jp) with
+     | Some m => negb (is_train m) && Nat.ltb (snd jp) (nszout m)
+     | None => false
+     end.
+
+Definition node_ok (nodes : list node) (i : nat) (n : node) : bool :=
+  let total := trainer nodes (List.length nodes) (ngid n) in
+  match nkind n with
+  | KApply inputs =>
+      forallb (ref_ok nodes i) inputs
+      (* the trained member of the group, if any, precedes its applied members in the dependency order *)
+      && (if nstateful n then match total, trainer nodes i (ngid n) with
+                              | None, _ => true
+                              | Some k, Some k' => Nat.eqb k k'
+                              | Some _, None => false
+                              end
+          else true)
+  | KTrain tr lb =>
+      ref_ok nodes i tr && ref_ok nodes i lb && nstateful n
+      (* the only trained member of its group *)
+      && match total, trainer nodes i (ngid n) with Some k, None => Nat.eqb k i | _, _ => false end
+  end.
+
+Fixpoint nodupb (l : list nat) : bool :=
+  match l with [] => true | x :: r => negb (existsb (Nat.eqb x) r) && nodupb r end.
+
+Definition assets_ok (a : assets) (nodes : list node) : bool :=
+  match a with
+  | None => true
+  | Some l =>
+      nodupb (map fst l)
+      && let has g := match trainer nodes (List.length nodes) g with Some _ => true | None => false end in
+         (forallb (fun gt => has (fst gt)) l || forallb (fun gt => negb (has (fst gt))) l)
+  end.
+
+Definition wfb (a : assets) (nodes : list node) (visit : list nat) : bool :=
+  forallb (fun jn => node_ok nodes (fst jn) (snd jn)) (combine (seq 0 (List.length nodes)) nodes)
+  && assets_ok a nodes
+  && nodupb visit && forallb (fun i => Nat.ltb i (List.length nodes)) visit
+  && Nat.eqb (List.length visit) (List.length nodes).
+
+Definition compile_ok (a : assets) (nodes : list node) (visit : list nat) : bool :=
+  match bind (compile a nodes visit) canon with
+  | Some t => validate a nodes t && valid_commit a nodes t
+  | None => false
+  end.
